@@ -32,10 +32,10 @@ impl Dec for ScancodeSet2 {
 }
 
 pub fn set_name(set: u8) -> &'static str {
-    if set == 1 {
-        "set1"
-    } else {
-        "set2"
+    match set {
+        1 => "set1",
+        2 => "set2",
+        _ => "user-defined-set",
     }
 }
 
@@ -112,7 +112,85 @@ pub fn enc_res_str(e: u16, uni: &[KeyCode]) -> String {
 
 // ------------------------------------------------------------------ byte-stream workloads
 
-pub const GEN_NAMES: [&str; 4] = ["G1-uniform", "G2-prefix-heavy", "G3-typing", "G4-typing+faults"];
+pub const GEN_NAMES: [&str; 6] = ["G1-uniform", "G2-prefix-heavy", "G3-typing", "G4-typing+faults", "G5-real-world-bursts", "G6-typematic-runs"];
+
+/// Byte bursts real keyboards and controllers actually produce but a key table does not contain: Pause, Ctrl+Break,
+/// PrintScreen / SysRq, the fake shifts around navigation keys, controller replies (ACK, resend, echo, BAT, ID bytes).
+pub fn special_sequences(set: u8) -> Vec<Vec<u8>> {
+    let v: &[&[u8]] = if set == 2 {
+        &[
+            &[0xE1, 0x14, 0x77, 0xE1, 0xF0, 0x14, 0xF0, 0x77], // Pause
+            &[0xE0, 0x7E, 0xE0, 0xF0, 0x7E],                   // Ctrl+Break
+            &[0x14],
+            &[0xF0, 0x14],
+            &[0xE0, 0x14],
+            &[0xE0, 0xF0, 0x14],
+            &[0xE1, 0x14],
+            &[0xE1, 0xF0, 0x14],
+            &[0xE0, 0x12, 0xE0, 0x7C], // PrintScreen make
+            &[0xE0, 0xF0, 0x7C, 0xE0, 0xF0, 0x12],
+            &[0x11, 0x84, 0xF0, 0x84, 0xF0, 0x11], // Alt+SysRq
+            &[0x7F],
+            &[0xE0, 0x12],
+            &[0xE0, 0xF0, 0x12],
+            &[0xE0, 0x59],
+            &[0xE0, 0xF0, 0x59],
+            &[0xE0, 0xF0, 0x12, 0xE0, 0x75, 0xE0, 0xF0, 0x75, 0xE0, 0x12], // arrow with Shift held
+            &[0x83],
+            &[0xF0, 0x83],
+            &[0xAA],
+            &[0x00],
+            &[0xFF],
+            &[0xFA],
+            &[0xFE],
+            &[0xEE],
+            &[0xFC],
+            &[0xFA, 0xAA],
+            &[0xAB, 0x83],
+            &[0xAB, 0x41],
+            &[0xFA, 0xAB, 0x83],
+            &[0x77],
+            &[0xF0, 0x77],
+            &[0x1C],
+            &[0xF0, 0x1C],
+        ]
+    } else {
+        &[
+            &[0xE1, 0x1D, 0x45, 0xE1, 0x9D, 0xC5], // Pause
+            &[0xE0, 0x46, 0xE0, 0xC6],             // Ctrl+Break
+            &[0x1D],
+            &[0x9D],
+            &[0xE0, 0x1D],
+            &[0xE0, 0x9D],
+            &[0xE1, 0x1D],
+            &[0xE1, 0x9D],
+            &[0xE0, 0x2A, 0xE0, 0x37], // PrintScreen make
+            &[0xE0, 0xB7, 0xE0, 0xAA],
+            &[0x38, 0x54, 0xD4, 0xB8], // Alt+SysRq
+            &[0xE0, 0x2A],
+            &[0xE0, 0xAA],
+            &[0xE0, 0x36],
+            &[0xE0, 0xB6],
+            &[0xE0, 0xAA, 0xE0, 0x48, 0xE0, 0xC8, 0xE0, 0x2A], // arrow with Shift held
+            &[0x41],
+            &[0xC1],
+            &[0xAA],
+            &[0x00],
+            &[0xFF],
+            &[0xFA],
+            &[0xFE],
+            &[0xEE],
+            &[0xFC],
+            &[0xFA, 0xAA],
+            &[0xAB, 0x41],
+            &[0x45],
+            &[0xC5],
+            &[0x1E],
+            &[0x9E],
+        ]
+    };
+    v.iter().map(|x| x.to_vec()).collect()
+}
 
 /// Keys the reference says this set can express, with their sequences.
 pub struct Typist {
@@ -250,12 +328,59 @@ impl Typist {
             })
             .collect()
     }
+    /// G5: real-world bursts interleaved with ordinary key strokes
+    pub fn bursts(&self, rng: &mut Rng, len: usize) -> Vec<u8> {
+        let sp = special_sequences(self.set);
+        let mut out = Vec::with_capacity(len + 16);
+        while out.len() < len {
+            if rng.below(3) > 0 {
+                out.extend(rng.pick(&sp));
+            } else {
+                let k = rng.below(self.keys.len() as u64) as usize;
+                out.extend(&self.make[k]);
+                if rng.bit() {
+                    out.extend(&self.brk[k]);
+                }
+            }
+        }
+        out
+    }
+    /// G6: long typematic runs (a held key repeats its make code hundreds of times, occasionally 2^16 times) followed by
+    /// the keys whose codes are adjacent to it
+    pub fn typematic_runs(&self, rng: &mut Rng, len: usize) -> Vec<u8> {
+        let mut out = Vec::with_capacity(len + 1024);
+        while out.len() < len {
+            let k = rng.below(self.keys.len() as u64) as usize;
+            let n = match rng.below(12) {
+                0 if len > 100_000 => 65_530 + rng.below(12) as usize,
+                1..=4 => 250 + rng.below(20) as usize,
+                5..=7 => 120 + rng.below(20) as usize,
+                _ => 1 + rng.below(40) as usize,
+            };
+            for _ in 0..n {
+                out.extend(&self.make[k]);
+            }
+            // neighbours by code (same prefix), then the release
+            let code = *self.make[k].last().unwrap();
+            for (j, m) in self.make.iter().enumerate() {
+                let c = *m.last().unwrap();
+                if m.len() == self.make[k].len() && (c == code.wrapping_add(1) || c == code.wrapping_sub(1)) {
+                    out.extend(m);
+                    out.extend(&self.brk[j]);
+                }
+            }
+            out.extend(&self.brk[k]);
+        }
+        out
+    }
     pub fn generate(&self, which: usize, rng: &mut Rng, len: usize) -> Vec<u8> {
         match which {
             0 => (0..len).map(|_| rng.byte()).collect(),
             1 => self.prefix_heavy(rng, len),
             2 => self.typing(rng, len),
-            _ => self.faulty_typing(rng, len),
+            3 => self.faulty_typing(rng, len),
+            4 => self.bursts(rng, len),
+            _ => self.typematic_runs(rng, len),
         }
     }
 }
@@ -285,4 +410,37 @@ pub fn n_threads() -> usize {
         .ok()
         .and_then(|s| s.parse().ok())
         .unwrap_or_else(|| std::thread::available_parallelism().map(|n| n.get()).unwrap_or(4).min(16))
+}
+
+/// A user-defined scancode set (the trait is public): answers every byte with a result that is a deterministic
+/// function of the byte and of how many bytes it has seen – events, "no event yet", and every error kind, including
+/// the three framing errors that the shipped sets never return.  Used where the property quantifies over the
+/// scancode-set parameter (C18: Keyboard must treat whatever its scancode stage returns the same way).
+#[derive(Debug, Clone, PartialEq, Eq, Default)]
+pub struct ScriptedSet {
+    pub seen: u32,
+}
+impl ScancodeSet for ScriptedSet {
+    fn advance_state(&mut self, code: u8) -> Result<Option<KeyEvent>, Error> {
+        self.seen = self.seen.wrapping_add(1);
+        let x = (code as u32).wrapping_mul(31).wrapping_add(self.seen.wrapping_mul(7)) % 11;
+        match x {
+            0 => Err(Error::BadStartBit),
+            1 => Err(Error::BadStopBit),
+            2 => Err(Error::ParityError),
+            3 => Err(Error::UnknownKeyCode),
+            4 | 5 => Ok(None),
+            _ => Ok(Some(KeyEvent::new(
+                NAMED_KEYS[(code as usize + self.seen as usize) % NAMED_KEYS.len()],
+                [KeyState::Down, KeyState::Up, KeyState::SingleShot][(code as usize) % 3],
+            ))),
+        }
+    }
+}
+impl Dec for ScriptedSet {
+    const SET: u8 = 9;
+    fn fresh() -> Self {
+        ScriptedSet::default()
+    }
+    const MAX_NONE_RUN: usize = usize::MAX;
 }
